@@ -330,7 +330,7 @@ impl World {
                 .wrap()
                 .query_wasm_smart(addr_s(p), &PairQueryMsg::Pair {});
             match pi {
-                Err(_) => s.extend(std::iter::repeat(0).take(27)),
+                Err(_) => s.extend(std::iter::repeat(0).take(35)),
                 Ok(pi) => {
                     s.push(1);
                     for a in pi.asset_infos.iter() {
@@ -370,6 +370,27 @@ impl World {
                             s.push(crate::util::u256(&r.commission_rate.0.to_string()).low_u128_checked());
                             s.push(r.requirements.whitelist.len() as u128);
                             s.push(Self::wl_comb(&r.requirements.whitelist));
+                        }
+                    }
+                    // the same lookup with the two assets in the other order
+                    let rev: Result<PairInfo, _> = self.app.wrap().query_wasm_smart(
+                        addr_s(0),
+                        &FactoryQueryMsg::Pair {
+                            asset_infos: [pi.asset_infos[1].clone(), pi.asset_infos[0].clone()],
+                        },
+                    );
+                    match rev {
+                        Err(_) => s.extend(std::iter::repeat(0).take(8)),
+                        Ok(r) => {
+                            s.push(1);
+                            s.push(addr_id(&r.contract_addr));
+                            for a in r.asset_infos.iter() {
+                                let (k, v) = Self::asset_code(a);
+                                s.push(k);
+                                s.push(v);
+                            }
+                            s.push(r.asset_decimals[0] as u128);
+                            s.push(r.asset_decimals[1] as u128);
                         }
                     }
                 }
